@@ -477,7 +477,7 @@ class Exec(ExprMixin, SpecMixin, Engine):
             return self.inline(s, self.sources[q], recv, args, kw)
         raise Unsupported("call to unknown " + q)
 
-    inline_ok = {"MERGE", "_AbstractNativeDataType.apply_weight", "_prepMergeIterators"}
+    inline_ok = {"_Tree._assert", "MERGE", "_AbstractNativeDataType.apply_weight", "_prepMergeIterators"}
 
     def bind_params(self, fdef, recv, args, kw, s):
         """-> dict name -> SV, evaluating defaults."""
@@ -568,6 +568,8 @@ class Exec(ExprMixin, SpecMixin, Engine):
                 continue
             alts = spec if isinstance(spec, list) else [spec]
             kinds = [parse_kind(a)[0] if not isinstance(a, tuple) else "tuple" for a in alts]
+            if env[nm].kind == "int" and "int" not in kinds and "V" in kinds:
+                env[nm] = SV("V", env[nm].z)        # a value read from an int-typed field (cursor.value)
             if env[nm].kind not in kinds:
                 raise Unsupported("call %s: argument %s is %s, contract wants %s"
                                   % (con.name, nm, env[nm].kind, kinds))
@@ -619,6 +621,10 @@ class Exec(ExprMixin, SpecMixin, Engine):
                     post.env[wn] = mk_int(fresh("wit_" + wn, INT))
             for nm, txt in clauses.items():
                 post.assume(self.spec(txt, ctx, state=post), tag="post:%s:%s" % (con.name, nm))
+            if kind == "normal":
+                # facts that are LEARNT from a normal return (not obligations of the body)
+                for nm, txt in (con.ghost.get("learn") or {}).items():
+                    post.assume(self.spec(txt, ctx, state=post), tag="learn:%s:%s" % (con.name, nm))
             if not self.feasible(post):
                 continue
             post.trace.append("%s->%s" % (con.name.split(".")[-1], kind))
@@ -631,5 +637,5 @@ class Exec(ExprMixin, SpecMixin, Engine):
                 post.ghost["cmp_typeerror"] = True
                 res.append((post, exc("TypeError")))
             else:
-                res.append((post, exc(kind)))
+                res.append((post, exc(kind, "callee:" + con.name)))
         return res
